@@ -58,6 +58,11 @@ RandEnvs(ss, seed, n) == { [nm \in { ss[p].name : p \in 1..Len(ss) } |->
                               LET p == CHOOSE q \in 1..Len(ss) : ss[q].name = nm IN
                               RandVal(ss[p].t, seed + 7919 * e + 104 * p)]
                            : e \in 1..n }
+\* the first n corner environments (diagonal first: e = 0, 9, 18, ... pairs every symbol with the same corner)
+CornerEnvsN(ss, n) == { [nm \in { ss[p].name : p \in 1..Len(ss) } |->
+                          LET p == CHOOSE q \in 1..Len(ss) : ss[q].name = nm IN
+                          CornerVal(ss[p].t, ((((e * 9) % 64) % NC) + (p - 1) * (((e * 9) % 64) \div NC)) % NC, p)]
+                        : e \in 0..(n - 1) }
 MaxExhBits == 10
 Exhaustive(ss) == TotalBits(ss) <= MaxExhBits
 EnvsFor(ss, seed, nrand) == IF Exhaustive(ss) THEN AllEnvs(ss) ELSE CornerEnvs(ss) \cup RandEnvs(ss, seed, nrand)
